@@ -338,6 +338,13 @@ def rule_class_stubs_kept_apart(ctx: Ctx, repo: Repo) -> None:
 
 
 def run(ctx: Ctx, repo: Repo, tier: str) -> None:
+    # concrete small values first: they decide also when a new code path is beyond the abstract scenarios below
+    from .concrete_infer import concrete_rules
+    concrete_err = None
+    try:
+        concrete_rules(ctx, repo, tier, limit="R-C06.6")
+    except AnalysisError as e:
+        concrete_err = e  # the abstract scenarios below still decide their clauses; re-raised at the end if they are silent
     ctx.trust("Python argument binding (positional then keyword) against the callee's signature as written in the source")
     rule_default(ctx, repo)
     rule_forwarding(ctx, repo)
@@ -346,3 +353,5 @@ def run(ctx: Ctx, repo: Repo, tier: str) -> None:
     rule_no_growth(ctx, repo)
     rule_class_stubs_kept_apart(ctx, repo)
     rule_who_may_create(ctx, repo)
+    if concrete_err is not None:
+        raise concrete_err
